@@ -469,10 +469,16 @@ func (w *World) Dump(ctx sdk.Context) M {
 		for ; it.Valid(); it.Next() {
 			d, err := sdk.NewDecFromStr(string(it.Value()))
 			if err != nil {
-				fr = append(fr, []interface{}{hex.EncodeToString(it.Key()), "undecodable"})
+				fr = append(fr, []interface{}{[]int{2, w.Str.ID(hex.EncodeToString(it.Key()))}, "0"})
+				bad = append(bad, "fishing-undecodable")
 				continue
 			}
-			fr = append(fr, []interface{}{w.Str.ID(string(it.Key())), decN(d)})
+			k := string(it.Key())
+			if _, err := sdk.AccAddressFromBech32(k); err == nil {
+				fr = append(fr, []interface{}{[]int{0, w.Addr.ID(k)}, decN(d)})
+			} else {
+				fr = append(fr, []interface{}{[]int{1, w.Str.ID(k)}, decN(d)})
+			}
 		}
 		it.Close()
 		st["fishing"] = fr
